@@ -159,6 +159,17 @@ def exc_class(e: BaseException) -> str:
 
 def guarded(fn, *a, limit=20, **kw):
     """(outcome, value) with a wall-clock limit; exceptions are values"""
+    out = _guarded(fn, a, kw, limit)
+    if out[0] != "Ok":
+        # the traceback of a failed call keeps h5py objects (and through them files reached over
+        # external links) open until the cycle collector runs: collect now (outside the handler), so
+        # that CPython object lifetime does not leak into the next operation
+        import gc
+        gc.collect()
+    return out
+
+
+def _guarded(fn, a, kw, limit):
     old = signal.signal(signal.SIGALRM, _alarm)
     signal.alarm(limit)
     try:
